@@ -24,8 +24,8 @@ func main() {
 		for _, id := range core.IDs() {
 			fmt.Println(id)
 		}
-	case "c07alone":
-		props.C07Alone(os.Args[2:])
+	case "c07child":
+		props.C07Child(os.Args[2:])
 	case "c05child":
 		var seed uint64
 		var idx int
